@@ -11,7 +11,7 @@ from hypothesis import strategies as st
 from . import common, model as M, refcodec as rc, sim
 
 NAME_POOL = ['A', 'b', 'Tag', 'SCADA', 'scada_2', 'Motor.Speed', 'Motor.Torque', 'x.y.z', 'Caf\xe9', '\xd1and\xfa', 'T1', 'T2',
-             'LongTagName_0123456789', 'q', 'Zz', 'odd', 'even']
+             'LongTagName_0123456789', 'q', 'Zz', 'odd', 'even', 'T3', 'T4', 'T5', 'T6', 'Pump.On', 'Pump.Off', 'k9']
 CLASSES = [0x93, 0x94, 0xFE, 0x104, 0x3E8, 0xFFFF]
 
 # ------------------------------------------------------------------------------------------------
@@ -52,6 +52,9 @@ def value_of(t):
 @st.composite
 def specs_strategy(draw, types=M.ALL_TYPES, allow_big=True):
     n = draw(st.integers(2, 6))
+    many = draw(st.integers(0, 9)) == 0
+    if many:
+        n = draw(st.integers(11, 15))       # enough auto-allocated tags for two-digit attribute numbers in one instance
     names = draw(st.lists(st.sampled_from(NAME_POOL), min_size=n, max_size=n, unique_by=lambda s: s.lower()))
     # no name may be a dotted prefix of another (resolution is by longest symbolic prefix already known)
     keep = []
@@ -63,7 +66,7 @@ def specs_strategy(draw, types=M.ALL_TYPES, allow_big=True):
     specs = []
     used = {}
     for nm in keep:
-        placement = draw(st.sampled_from(['auto', 'auto', 'addr', 'addr', 'alias']))
+        placement = 'auto' if many else draw(st.sampled_from(['auto', 'auto', 'addr', 'addr', 'alias']))
         if placement == 'alias' and used:
             addr = draw(st.sampled_from(sorted(used)))
             t, length = used[addr]
@@ -71,7 +74,9 @@ def specs_strategy(draw, types=M.ALL_TYPES, allow_big=True):
             continue
         t = draw(st.sampled_from(list(types)))
         length = draw(st.one_of(st.just(1), st.integers(2, 40), st.integers(2, 6)))
-        if allow_big and draw(st.integers(0, 19)) == 0:
+        if many:
+            length = min(length, 6)
+        elif allow_big and draw(st.integers(0, 19)) == 0:
             length = 600
         address = None
         if placement != 'auto':
@@ -168,10 +173,12 @@ def op_strategy(draw, specs, mode):
                 if nvals > 1:
                     nvals = draw(st.integers(1, nvals))
         nvals = max(1, nvals)
+        if mode == 'edge' and draw(st.integers(0, 5)) == 0:
+            nvals += draw(st.integers(1, 3))        # more data than the declared element count
         op['values'] = draw(st.lists(value_of(rt), min_size=nvals, max_size=nvals))
         if svc == 'write_tag':
-            op['count'] = len(op['values']) if n else n
-            if op['count'] == 0:
+            surplus = mode == 'edge' and n and len(op['values']) > n
+            if not surplus:
                 op['count'] = len(op['values'])
     return op
 
